@@ -353,3 +353,27 @@ def m3(ctx):
     obs.append(Ob('M3', 'stampede/helpers-call-through', ok and ncalls >= 2, why or 'helper closures not found',
                   outer.loc()))
     return obs
+
+
+@rule('M4', floor=3, title='decorator factories keep no state between decorated functions (no nonlocal rebinding of their arguments)')
+def m4(ctx):
+    obs = []
+    for q in ('core.Cache.memoize', 'djangocache.DjangoCache.memoize', 'recipes.memoize_stampede', 'recipes.throttle',
+              'recipes.barrier'):
+        f = ctx.func(q)
+        bad = []
+        params = set(f.posparams) | set(f.kwonly)
+        for n in ast.walk(f.node):
+            if isinstance(n, (ast.Nonlocal, ast.Global)):
+                bad.append(n)
+        # assignments inside nested functions to names that are parameters of the factory
+        def nested_nodes(fn):
+            for g in fn.nested.values():
+                yield g
+                yield from nested_nodes(g)
+        obs.append(Ob('M4', q, not bad,
+                      'a closure created by %s rebinds a variable of the enclosing call (nonlocal %s): the name/base '
+                      'derived for the first decorated function leaks into the next function decorated with the same '
+                      'decorator object, so both build the same keys' % (q, ', '.join(
+                          x for b in bad for x in getattr(b, 'names', []))), f.loc(bad[0]) if bad else f.loc()))
+    return obs
